@@ -3,6 +3,9 @@
 
 use crate::report::{Ctx, Report};
 
+pub mod c05;
+pub mod c06;
+pub mod c07;
 pub mod c08;
 pub mod c09;
 pub mod c10;
@@ -13,11 +16,15 @@ pub mod c17;
 pub mod c20;
 pub mod c21;
 pub mod c28;
+pub mod c32;
 
 pub type MonFn = fn(&Ctx) -> Report;
 
 pub fn registry() -> Vec<(&'static str, MonFn)> {
     vec![
+        ("c05", c05::run as MonFn),
+        ("c06", c06::run as MonFn),
+        ("c07", c07::run as MonFn),
         ("c08", c08::run as MonFn),
         ("c09", c09::run as MonFn),
         ("c10", c10::run as MonFn),
@@ -27,6 +34,7 @@ pub fn registry() -> Vec<(&'static str, MonFn)> {
         ("c20", c20::run as MonFn),
         ("c21", c21::run as MonFn),
         ("c28", c28::run as MonFn),
+        ("c32", c32::run as MonFn),
         ("c16k", c16::run_k as MonFn),
         ("c16d", c16::run_d as MonFn),
     ]
